@@ -447,11 +447,18 @@ class SelectWith(Statement):
         self._target = target
 
     def write(self, scope) -> TextBlock:
-        if self._default is None:
-            assert len(self._branches) != 0
-            separators = "," * (len(self._branches) - 1) + ";"
-        else:
-            separators = "," * len(self._branches)
+        branches = self._branches
+        default = self._default
+
+        if default is None:
+            assert len(branches) != 0
+            # The frontend only accepts a missing default if the choices cover
+            # every two-valued value of the selector. A selected assignment must
+            # cover the metavalue patterns of std_logic too: the last choice
+            # becomes the others choice.
+            *branches, (_, default) = branches
+
+        separators = "," * len(branches)
 
         assert isinstance(self._arg, Value)
 
@@ -474,13 +481,9 @@ class SelectWith(Statement):
                     [
                         *[
                             f"{branch[1].write(scope, self._target.result)} when {branch[0].write(scope, self._arg.result)}{sep}"
-                            for branch, sep in zip(self._branches, separators)
+                            for branch, sep in zip(branches, separators)
                         ],
-                        *[
-                            f"{default.write(scope, self._target.result)} when others;"
-                            for default in [self._default]
-                            if default is not None
-                        ],
+                        f"{default.write(scope, self._target.result)} when others;",
                     ],
                 ),
             ],
